@@ -10,6 +10,7 @@ import errno
 import hashlib
 import io
 import os
+import sys
 import zlib
 from collections import OrderedDict
 
@@ -198,6 +199,11 @@ class SimReadHandle(object):
             # same contract as io.BytesIO.read('x')
             raise TypeError('argument should be integer or None, not %r'
                             % type(n).__name__)
+
+        if n > sys.maxsize:
+            # same contract as io.BytesIO / io.FileIO
+            raise OverflowError("cannot fit 'int' into an index-sized "
+                                "integer")
 
         if n < 0:
             out = self.data[self.pos:]
